@@ -384,6 +384,14 @@ func execBloom(c Case) string {
 			return "EXT " + strings.Join(leaves, ",") + " RES " + res + " LATER " + again
 		}
 		return "EXT " + strings.Join(leaves, ",") + " RES " + res
+	case "exlim": // exlim <numTx> <hashes> <flags>: ex while bchd's process-wide block size setting is doubled
+		wire.SetLimits(64000000)
+		defer wire.SetLimits(32000000)
+		m := wire.MsgMerkleBlock{Transactions: uint32(atou(a[0])), Flags: unhx(a[2])}
+		for _, t := range splitOr(a[1], ",") {
+			m.Hashes = append(m.Hashes, expandHash(t))
+		}
+		return extractTok(&m)
 	case "ex": // ex <numTx> <hashes> <flags>
 		m := wire.MsgMerkleBlock{Transactions: uint32(atou(a[0])), Flags: unhx(a[2])}
 		for _, t := range splitOr(a[1], ",") {
@@ -1127,6 +1135,10 @@ func genC12(r *Rng, tier string, emit func(Case)) {
 		}
 	}
 	e("ex", "noflags", "1", "aa", "-")
+	for _, cnt := range []string{"2098360", "2098361", "2098362", "4196720", "4196721"} {
+		e("exlim", "limits", cnt, "aa", "00")
+		e("ex", "limits", cnt, "aa", "00")
+	}
 	// the same small scope over the two *special* hash values (all-zero: the zero value of chainhash.Hash, what an
 	// unset or exhausted branch would hold; all-ones), so that the equal-children guard is exercised with them
 	cnt = 0
